@@ -4,6 +4,7 @@ import (
 	"os"
 	"syscall"
 
+	"github.com/dgraph-io/badger"
 	hg "github.com/mosaicnetworks/babble/src/hashgraph"
 	"github.com/mosaicnetworks/babble/src/peers"
 )
@@ -25,9 +26,33 @@ type CrashStore struct {
 	Creator map[string]string
 	Index   map[string]int
 	Log     []string
+	armed   bool
+}
+
+// Arm installs the store's counter as Badger's commit hook: from now on a "write" is one database
+// transaction (a Store call may consist of several), and the node dies before the At-th one. Disarm removes it.
+func (s *CrashStore) Arm() {
+	s.armed = true
+	badger.VerifBeforeCommit = func() { s.tickCommit() }
+}
+
+func Disarm() { badger.VerifBeforeCommit = nil }
+
+func (s *CrashStore) tickCommit() {
+	s.Writes++
+	if s.At > 0 && s.Writes == s.At {
+		if s.Kill {
+			syscall.Kill(os.Getpid(), syscall.SIGKILL)
+			select {}
+		}
+		panic(CrashSentinel{Node: s.Node, Write: s.Writes})
+	}
 }
 
 func (s *CrashStore) tick(kind string) {
+	if s.armed {
+		return // counted per database transaction instead
+	}
 	s.Writes++
 	if s.At > 0 && s.Writes == s.At {
 		if s.Kill {
